@@ -19,9 +19,9 @@ pub fn p1_of<CS: BbsCiphersuite>() -> G1Projective {
 /// 169 / 138 for i < 12).  A pure function: no global state.
 pub fn model_gen(i: usize, blind_family: bool) -> G1Projective {
     if blind_family {
-        G1Projective(101 + 5 * i as u16)
+        G1Projective::from_dlog(101 + 5 * i as u16)
     } else {
-        G1Projective(2 + 3 * i as u16)
+        G1Projective::from_dlog(2 + 3 * i as u16)
     }
 }
 fn is_blind_family(api: &[u8]) -> bool {
@@ -40,7 +40,9 @@ where
     let blind = is_blind_family(api_id.unwrap_or(&[]));
     let mut values = Vec::new();
     let mut i = 0;
-    while i < count {
+    // `i < GEN_REQUEST_CAP` is implied by the assertion above; stated again so that the loop bound is
+    // syntactically constant for the symbolic-execution engine
+    while i < count && i < GEN_REQUEST_CAP {
         values.push(model_gen(i, blind));
         i += 1;
     }
@@ -111,5 +113,11 @@ pub mod sym {
     /// canonical scalar encoding of a symbolic one-octet scalar
     pub fn put_scalar(b: &mut [u8], off: usize) {
         b[off + 31] = kani::any();
+    }
+    /// canonical scalar encoding of a symbolic NON-ZERO one-octet scalar (signature exponent)
+    pub fn put_nonzero_scalar(b: &mut [u8], off: usize) {
+        let v: u8 = kani::any();
+        kani::assume(v != 0);
+        b[off + 31] = v;
     }
 }
